@@ -61,7 +61,7 @@ prop("C13",
      COMMON_ASSUMPTIONS)
 
 prop("C14",
-     ["DT1", "DT2", "DT3", "DT4", "LN1", "NK2", "SF1", "DL1"],
+     ["DT1", "DT2", "DT3", "DT4", "LN1", "NK2", "SF1", "DL1", "MP3"],
      "Abstract dtype interpretation of every scale method over dtype witnesses (zero-length arrays, Python-scalar coefficients; NumPy as "
      "oracle of its own promotion rules) against the table read from MultiScaling._compute_scale_dtype, for every scaling class x real "
      "numeric raw dtype (thorough: both byte orders, NumPy-scalar coefficients, all Add/Subtract pairs); dtype source of every empty "
@@ -177,7 +177,7 @@ prop("C18",
                            "inverse(forward(T)) consistency report at vendoring time"])
 
 prop("C11",
-     ["BL1", "BL2", "BL3", "TD1", "SR1", "TR1", "TR2", "DL1", "SB1", "SZ1"],
+     ["BL1", "BL2", "BL3", "TD1", "SR1", "TR1", "TR2", "TR3", "DL1", "SB1", "SZ1"],
      "The agreements the DAQmx index arithmetic rests on: record sizes vs formats, scaler type-code table, byte order threaded through "
      "every DAQmx parse site and decoder, sibling interface of the scaler classes and agreement of the three header sets, (length, width) "
      "role flow from get_buffer_dimensions into reads and seeks, scaler values = byte columns [offset, offset+size) of their own buffer, "
@@ -252,3 +252,16 @@ NOT_APPLICABLE = {
            "is not in the shape of the code (needs computer algebra or evaluation); structural facts about these classes "
            "(purity, result dtype) are claimed under C13/C14 (DESIGN.md section 4, C17)",
 }
+
+
+prop("C06",
+     ["TC1", "TC2", "SB1", "LN1", "BD1"],
+     "The structural part of reading a file that was cut short: (TC1) the end of a segment and its incomplete flag, evaluated in normal form under "
+     "every scenario of 'length unknown' marker x data file size known x claimed end before/at/beyond the end of the file; (TC2) a short lead-in read "
+     "and metadata that is not completely in the file raise EOFError, which ends the scan of the file without recording the torn segment; (SB1) the bytes "
+     "of a short final chunk are given to buffers/channels in order, the first incomplete one gets remaining // width values and nothing after it gets any; "
+     "(LN1) len(channel) and the lazy index count values through the one function that knows the short final chunk; (BD1) windowed reads account for a "
+     "truncated final chunk.",
+     ["that the values returned are a prefix for every cut offset of every file (run-time arithmetic on remainders and short reads)",
+      "strings in multi-chunk truncated segments (excluded by the property)", "short reads inside np.fromfile / readinto"],
+     COMMON_ASSUMPTIONS)
